@@ -13,6 +13,7 @@ from . import common
 
 SPEC = {
     "level": "exploration",
+    "level_text": 'Exploration with a reference model: independent V2000 and V3000 renderers of one abstract molecule; both graphs must equal the model and each other (node data in order, edge data) and yield one string. Covers code vs property-line encodings, supersession, 1..8 entries per line over several lines, D/T with foreign M  ISO, touching fixed-width fields, 3-digit indices, and call histories over one drawing in several label states.',
     "technique": "reference-model runtime monitor: independent V2000 and V3000 renderers of one abstract molecule, graph equality against the model and between the two readers",
     "rule": ("cases: abstract molecules <=999 atoms (most <=30, some 100-300 for 3-digit indices) with F10.4-representable coordinates x V2000 renderings: charge/radical as atom-block "
              "codes, as M  CHG/M  RAD lines, stale codes superseded by property lines, CHG-only / RAD-only lines; entries packed 1..8 per line over several lines; isotopes in M  ISO; "
